@@ -6,4 +6,4 @@ Extraction "model.ml"
   N.eqb N.ltb N.of_nat N.to_nat
   differ legacy_differ differ_step legacy_differ_step
   trace_of_with final_live_with holds_b_with
-  trace_of final_live holds_b late_b coalesced_b last_snapshot netset apply.
+  trace_of final_live holds_b late_b coalesced_b last_snapshot netset apply init_pub.
